@@ -245,6 +245,8 @@ def schema_tie(groups, timeout=600):
                 pass
             problems.append("schema tie: theorem(s) %s of SchemaTie/%s.lean no longer check against spowtd/schema.sql: %s" % (
                 ", ".join("Spowtd.SchemaTie." + n for n in names) or "?", g, " | ".join(lines)[:500]))
+    if not problems:
+        problems += tie_axioms("SchemaTie", ["Names"] + list(groups), timeout)
     return problems
 
 
@@ -266,6 +268,8 @@ def sql_tie(modules, timeout=600):
             what = [ln for ln in d.stdout.split("\n") if ln.startswith(m + ".py")][:4]
             problems.append("SQL tie: theorem Spowtd.SqlTie.%s_sql_decl no longer checks: the statements executed by spowtd/%s.py "
                             "are not those the model was derived from: %s" % (m, m, " | ".join(what)[:700] or "(see lake build SqlTie.%s)" % name))
+    if not problems:
+        problems += tie_axioms("SqlTie", ["".join(w.capitalize() for w in m.split("_")) for m in modules], timeout)
     return problems
 
 
@@ -303,7 +307,41 @@ def formula_tie(groups, timeout=600):
             problems.append("formula tie: theorem(s) %s of FormulaTie/%s.lean no longer check: the arithmetic translated from the source "
                             "is not the model's: %s" % (", ".join("Spowtd.FormulaTie." + n for n in names) or "?", g,
                                                         " | ".join(report.get(g, []) + lines)[:700]))
+    if not problems:
+        problems += tie_axioms("FormulaTie", groups, timeout)
     return problems
+
+
+def tie_axioms(lib, groups, timeout=600):
+    """the theorems of the tie files depend on the three standard axioms at most"""
+    names = []
+    for g in groups:
+        try:
+            with open(os.path.join(LEAN_DIR, lib, g + ".lean")) as fh:
+                names += re.findall(r"^theorem\s+([\w'.]+)", strip_comments(fh.read()), flags=re.M)
+        except OSError:
+            return ["tie audit: %s/%s.lean cannot be read" % (lib, g)]
+    if not names:
+        return ["tie audit: no theorem found in %s/{%s}.lean" % (lib, ",".join(groups))]
+    fd, path = tempfile.mkstemp(suffix=".lean", prefix="tieaudit")
+    try:
+        with os.fdopen(fd, "w") as fh:
+            fh.write("".join("import %s.%s\n" % (lib, g) for g in groups))
+            fh.write("".join("#print axioms Spowtd.%s.%s\n" % (lib, n) for n in names))
+        p = subprocess.run(["lake", "env", "lean", path], cwd=LEAN_DIR, capture_output=True, text=True, timeout=timeout)
+    finally:
+        os.remove(path)
+    out = p.stdout + p.stderr
+    bad = []
+    seen = 0
+    for m in re.finditer(r"'Spowtd\.%s\.([\w'.]+)' (does not depend on any axioms|depends on axioms: \[([^\]]*)\])" % lib, out):
+        seen += 1
+        extra = [a.strip() for a in (m.group(3) or "").split(",") if a.strip() and a.strip() not in ALLOWED_AXIOMS]
+        if extra:
+            bad.append("%s uses %s" % (m.group(1), ", ".join(extra)))
+    if p.returncode != 0 or seen != len(names) or "sorry" in out:
+        bad.append("axiom audit of the tie theorems did not complete: %s" % out[-300:])
+    return ["tie audit (%s): %s" % (lib, "; ".join(bad))] if bad else []
 
 
 MISSING_DECLS = []
